@@ -168,6 +168,21 @@ def p_select_in_aliased(Q, I):
     return Q.from_(t).select(t.a, t.a.isin(I.as_("zz")).as_("flag")), "paren", "flag"  # the criterion's alias, not the subquery's
 
 
+def p_select_cmp_right_aliased(Q, I):
+    t = _t()
+    return Q.from_(t).select(t.a, (t.a < I.as_("zz")).as_("flag")), "paren", "flag"  # the comparison's alias, not the operand's
+
+
+def p_select_cmp_left_aliased(Q, I):
+    t = _t()
+    return Q.from_(t).select((I.as_("zz") > t.a).as_("flag"), t.a), "paren", None
+
+
+def p_select_arith_right_aliased(Q, I):
+    t = _t()
+    return Q.from_(t).select((t.a + I.as_("zz")).as_("tot")), "paren", "tot"
+
+
 def p_join_on_value(Q, I):
     I = I.as_("j2")
     t = _t()
@@ -289,7 +304,7 @@ def p_nested_from(Q, I):
     return Q.from_(mid).select(mid.x), "paren", "e2"
 
 
-POS = {f.__name__[2:]: f for f in (p_from, p_from_auto, p_join, p_in, p_in_aliased, p_cmp_aliased, p_func_arg_aliased, p_select_in_aliased, p_join_on_value, p_not_in_aliased, p_and_or_in_aliased, p_select_case_in_aliased, p_notin, p_not_in, p_and_in, p_cmp, p_select_item,
+POS = {f.__name__[2:]: f for f in (p_from, p_from_auto, p_join, p_in, p_in_aliased, p_cmp_aliased, p_func_arg_aliased, p_select_in_aliased, p_select_cmp_right_aliased, p_select_cmp_left_aliased, p_select_arith_right_aliased, p_join_on_value, p_not_in_aliased, p_and_or_in_aliased, p_select_case_in_aliased, p_notin, p_not_in, p_and_in, p_cmp, p_select_item,
                                    p_select_item_aliased, p_cte, p_setop_right, p_setop_base, p_setop_chain_right, p_setop_chain_right_all, p_setop_chain_three, p_setop_chain_mid, p_as_select, p_update_from,
                                    p_delete_in, p_insert_value, p_func_arg, p_case_then, p_having, p_join_on, p_nested_from)}
 
